@@ -20,6 +20,7 @@ INSTANCES = {
     "tut1x1": ("normal..tutorial1", "net1", True),
     "getx2": ("leaves..tutorial_get", "net1 net2", True),
     "tut13x4": ("normal..tutorial1,normal..tutorial3", "net1 net2 net3 net4", True),
+    "tut3fedx2": ("normal..tutorial3", "net1 net2", True, {"vm1": "only Fedora\n", "vm2": "only Win7\n", "vm3": "only Ubuntu\n"}),
     "getx3": ("leaves..tutorial_get", "net1 net2 net3", True),
     "tut13r": ("normal..tutorial1,normal..tutorial3", "net1 net5", True),          # net5 excludes vm1=CentOS
     "tut13c": ("normal..tutorial1,normal..tutorial3", "cluster1.net6 cluster1.net7 cluster2.net6", True),   # remote spawner, two clusters
@@ -29,10 +30,11 @@ INSTANCES = {
 
 
 def make_instance(name, params=None):
-    restr, nets, lazy = INSTANCES[name]
+    restr, nets, lazy = INSTANCES[name][:3]
+    vm_strs = INSTANCES[name][3] if len(INSTANCES[name]) > 3 else None
     p = {"test_timeout": 100}
     p.update(params or {})
-    return P.Instance(name, restr, nets, p, lazy=lazy)
+    return P.Instance(name, restr, nets, p, lazy=lazy, vm_strs=vm_strs)
 
 
 def producible_states(inst):
